@@ -140,9 +140,15 @@ def c_type_decl(t, out, done):
         if t.tag in done:
             return
         done.add(t.tag)
-        for m in t.decls:
-            if isinstance(m.ty, (Agg, Arr)) and m.name is not None:
-                c_type_decl(m.ty, out, done)
+        def inner(a):
+            for m in a.decls:
+                if m.width is not None:
+                    continue
+                if m.name is None:
+                    inner(m.ty)                    # anonymous member: defined inline, its members' types first
+                elif isinstance(m.ty, (Agg, Arr)):
+                    c_type_decl(m.ty, out, done)
+        inner(t)
         out.append(agg_def(t, named=True) + ";")
 
 
@@ -471,26 +477,28 @@ class Gen:
         cls = {"": 1, "u8": 3, "u": 5, "U": 7, "L": 6 if self.tg["wchar"] == "int" else 7}[kind]
         return E(txt, "s%d.%d:%s" % (w, cls, "/".join(map(str, b))), ["string"])
 
-    def gen_one(self, t, bfw, depth, may_partial, nocl=False):
+    def gen_one(self, t, bfw, depth, may_partial, nocl=False, nobrace=False):
         """(items, complete): undesignated items initialising one sub-object of type t positionally;
-        complete = the sub-object was consumed entirely (the cursor stands behind it)."""
+        complete = the sub-object was consumed entirely (the cursor stands behind it).
+        nobrace: the first item must not begin with `{` (it is the first initialiser of a
+        brace-elided aggregate: a brace there would be taken as that aggregate's own, 6.7.9p20)."""
         rng = self.rng
         self.budget -= 1
         if isinstance(t, Sc):
             e = self.expr_for(t, bfw) if not (nocl and t.kind == "ptr") else E("0", "n0.0.0.0", ["ptr-null"])
-            if rng.random() < 0.06:
+            if rng.random() < 0.06 and not nobrace:
                 self.hist("shape", "braced-scalar")
                 return [([], L([([], e)]))], True
             return [([], e)], True
         if self.is_strable(t) and rng.random() < 0.45:
             s = self.string_for(t)
             if s is not None:
-                if rng.random() < 0.3:
+                if rng.random() < 0.3 and not nobrace:
                     self.hist("strings", "in-braces")
                     return [([], L([([], s)]))], True
                 return [([], s)], True
         r = rng.random()
-        if r < 0.62 or self.budget <= 0:
+        if (r < 0.62 or self.budget <= 0) and not nobrace:
             return [([], self.gen_braced(t, depth, nocl))], True
         # brace elision: the flattened sub-objects
         self.hist("shape", "brace-elided")
@@ -500,7 +508,7 @@ class Gen:
             k = rng.randint(1, len(ch))
         out = []
         for idx, (_, ct, w) in enumerate(ch[:k]):
-            one, comp = self.gen_one(ct, w, depth + 1, may_partial and idx == k - 1, nocl)
+            one, comp = self.gen_one(ct, w, depth + 1, may_partial and idx == k - 1, nocl, nobrace=(idx == 0))
             out += one
             if not comp:
                 self.hist("shape", "elided-partial")
